@@ -30,7 +30,7 @@ ASSUMPTIONS = [
     "not for completeness",
 ]
 DECIDING_MONITORS = ("intersection:judged",)
-CASE_TIMEOUT = 240
+CASE_TIMEOUT = 400
 SHARD_SIZE = 8
 
 
@@ -285,6 +285,10 @@ def internal_case(ctx):
 def case(ctx):
     import shapepy
 
+    if ctx.tier == "thorough" and ctx.index == 0:
+        from vf.checks.common import suite_case
+
+        return suite_case(ctx, ID)
     rng = ctx.rng
     if ctx.index % 6 == 5:
         return internal_case(ctx)
